@@ -310,10 +310,10 @@ def make_replay(h, prop, tier, logdir):
         # real mismatch (None = unconfirmed). If cargo-kani died or timed out while producing the
         # trace (kani-driver needs tens of GB to parse the JSON trace of the large harnesses), the
         # counterexample exists but cannot be materialised with this tool: "tool-limit".
-        if "VERIFICATION:-" not in out:
+        if "VERIFICATION:-" not in out or "did not generate unit tests, but there were failing harnesses" in out:
             open(os.path.join(rdir, "SOLVER-ONLY.md"), "w").write(
                 f"# {prop} / {h.name}\n\nThe solver refuted this harness on the current tree, but Kani's concrete-playback "
-                f"generation did not complete (timeout or kani-driver out of memory), so no native unit test was produced.\n"
+                f"generation did not complete (timeout, kani-driver out of memory, or Kani's own 'did not generate unit tests' defect), so no native unit test was produced.\n"
                 f"Re-run: `cd /verif && ./check {prop} --tier {tier} --only {h.name}`; failed checks are in "
                 f"`.target/logs/{prop}/{h.name}.log`.\n")
             return rdir, "tool-limit"
